@@ -1,10 +1,17 @@
 """Abstract TLV trees: normalisation, rendering, queries, comparison with reference schemas."""
 import formula as F
 from formula import And, Not, Or
-from interp import V, core, roots, places, calls_of, Const, Def, TagV, CallV, DerV, Via, Sel, Param, StructV, MutV, IndexV, OpV, PhiV
+from interp import V, core, roots, places, calls_of, Const, Def, TagV, CallV, DerV, Via, Sel, Param, StructV, MutV, IndexV, OpV, PhiV, restrict
 
 
 from interp import roots as roots  # re-export for rule modules
+
+
+def _by_variant(phi):
+    """a case split whose every case is selected by enum-variant tests only (`match &self.kind { A(..) => .., B(..) => .. }`)"""
+    from interp import flatten_phi
+    alts = [c for c, _ in flatten_phi(phi) if c is not False]
+    return len(alts) > 1 and all(c is not True and F.atoms(c) and all(a[0] == "variant" for a in F.atoms(c)) for c in alts)
 
 
 def norm(items):
@@ -34,7 +41,8 @@ def norm(items):
             if t == "Tagged":
                 n = canon_tag(n)
             out.append(n)
-        elif t == "Prim" and it.get("kind") == "INTEGER" and it.get("args") and isinstance(core(it["args"][0]), PhiV) and "inner" not in it and not it.get("_split"):
+        elif t == "Prim" and it.get("kind") in ("INTEGER", "BIT STRING") and it.get("args") and isinstance(core(it["args"][0]), PhiV) and "inner" not in it and not it.get("_split") \
+                and (it.get("kind") == "INTEGER" or _by_variant(core(it["args"][0]))):
             # one write of a case-split value (`let sn = if .. { a } else { b }; w.write_x(sn)`) is the same as one write
             # per case
             from interp import flatten_phi
@@ -42,7 +50,7 @@ def norm(items):
                 if c_ is False:
                     continue
                 k_ = dict(it)
-                k_["args"] = [x_] + list(it["args"][1:])
+                k_["args"] = [x_] + ([restrict(a_, c_) if c_ is not True else a_ for a_ in it["args"][1:]] if it.get("kind") == "BIT STRING" else list(it["args"][1:]))
                 k_["_split"] = True
                 kk_ = norm([k_])
                 if c_ is True:
